@@ -81,8 +81,105 @@ class _Resolver(ast.NodeTransformer):
         return n
 
 
+def _constlike(e):
+    """Constant, or a dotted name of a class-level constant / enum member (Otype.UNARY, Keyword.CASE): compared by spelling."""
+    if isinstance(e, ast.Constant):
+        return True
+    d = dotted_name(e)
+    return d is not None and "." in d and d.split(".")[0][:1].isupper() and "@" not in d
+
+
+class _Simplifier(ast.NodeTransformer):
+    """Partial evaluation of what is decidable from spelling alone: lookups in literal dicts with constant keys,
+    comparisons between constants / enum members, boolean operators and conditional expressions over the results,
+    getattr with a literal name."""
+
+    def visit_Call(self, n):
+        self.generic_visit(n)
+        f = n.func
+        if isinstance(f, ast.Attribute) and f.attr == "get" and isinstance(f.value, ast.Dict) and 1 <= len(n.args) <= 2 and not n.keywords \
+                and all(k is not None and _constlike(k) for k in f.value.keys) and _constlike(n.args[0]):
+            key = norm(n.args[0])
+            for k, v in zip(f.value.keys, f.value.values):
+                if norm(k) == key:
+                    return v
+            return n.args[1] if len(n.args) == 2 else ast.Constant(value=None)
+        if isinstance(f, ast.Name) and f.id == "getattr" and len(n.args) == 2 and isinstance(n.args[1], ast.Constant) and isinstance(n.args[1].value, str) \
+                and n.args[1].value.isidentifier():
+            return ast.Attribute(value=n.args[0], attr=n.args[1].value, ctx=ast.Load())
+        if isinstance(f, ast.Name) and f.id == "dict" and len(n.args) == 1 and not n.keywords and isinstance(n.args[0], (ast.Tuple, ast.List)) \
+                and all(isinstance(e, (ast.Tuple, ast.List)) and len(e.elts) == 2 for e in n.args[0].elts):
+            return ast.Dict(keys=[e.elts[0] for e in n.args[0].elts], values=[e.elts[1] for e in n.args[0].elts])
+        return n
+
+    def visit_Subscript(self, n):
+        self.generic_visit(n)
+        if isinstance(n.value, ast.Dict) and all(k is not None and _constlike(k) for k in n.value.keys) and _constlike(n.slice):
+            key = norm(n.slice)
+            for k, v in zip(n.value.keys, n.value.values):
+                if norm(k) == key:
+                    return v
+        if isinstance(n.value, (ast.Tuple, ast.List)) and isinstance(n.slice, ast.Constant) and isinstance(n.slice.value, int) \
+                and not any(isinstance(e, ast.Starred) for e in n.value.elts) and -len(n.value.elts) <= n.slice.value < len(n.value.elts):
+            return n.value.elts[n.slice.value]
+        return n
+
+    def visit_Compare(self, n):
+        self.generic_visit(n)
+        if len(n.ops) == 1 and _constlike(n.left) and _constlike(n.comparators[0]) and isinstance(n.ops[0], (ast.Eq, ast.NotEq, ast.Is, ast.IsNot)):
+            a, b = n.left, n.comparators[0]
+            if isinstance(a, ast.Constant) and isinstance(b, ast.Constant):
+                same = a.value == b.value and type(a.value) is type(b.value)
+            elif isinstance(a, ast.Constant) or isinstance(b, ast.Constant):
+                c = a if isinstance(a, ast.Constant) else b
+                if c.value is None or isinstance(n.ops[0], (ast.Is, ast.IsNot)):
+                    same = False      # an enum member / class constant is not None and not identical to a literal
+                else:
+                    return n
+            else:
+                same = norm(a) == norm(b)
+                if not same and norm(a).split(".")[0] != norm(b).split(".")[0]:
+                    return n          # members of different classes: not decidable by spelling
+            return ast.Constant(value=same if isinstance(n.ops[0], (ast.Eq, ast.Is)) else not same)
+        return n
+
+    def visit_UnaryOp(self, n):
+        self.generic_visit(n)
+        if isinstance(n.op, ast.Not) and isinstance(n.operand, ast.Constant):
+            return ast.Constant(value=not n.operand.value)
+        return n
+
+    def visit_BoolOp(self, n):
+        # truth-preserving (used on tests): neutral constants are dropped, an absorbing constant ends the chain
+        self.generic_visit(n)
+        is_and = isinstance(n.op, ast.And)
+        vals = []
+        for v in n.values:
+            if isinstance(v, ast.Constant):
+                if bool(v.value) != is_and:
+                    vals.append(ast.Constant(value=not is_and))
+                    break
+                continue
+            vals.append(v)
+        if not vals:
+            return ast.Constant(value=is_and)
+        if isinstance(vals[0], ast.Constant) or len(vals) == 1:
+            return vals[0]
+        return ast.BoolOp(op=n.op, values=vals)
+
+    def visit_IfExp(self, n):
+        self.generic_visit(n)
+        if isinstance(n.test, ast.Constant):
+            return n.body if n.test.value else n.orelse
+        return n
+
+
+def simplify(expr):
+    return _Simplifier().visit(expr) if expr is not None else None
+
+
 def resolve(expr, state):
-    return _Resolver(state).visit(clone(expr))
+    return simplify(_Resolver(state).visit(clone(expr)))
 
 
 def _assigned_names(stmts):
@@ -99,6 +196,7 @@ class Explorer:
         self.max_paths = max_paths
         self.count = 0
         self.opaque_calls = opaque_calls
+        self.prune = True
         self.iterations = {}          # id(loop node) -> (loop node, index of the first event of the iteration, [PathState])
 
     def _value(self, expr, st, node):
@@ -224,6 +322,10 @@ class Explorer:
             return [st]
         if isinstance(s, ast.If):
             t = resolve(s.test, st)        # may bind walrus targets in st.env
+            if isinstance(t, ast.Constant) and self.prune:
+                # decided by partial evaluation: only one branch is feasible
+                st.events.append(Event("test", s, t, bool(t.value)))
+                return self.block(s.body if t.value else s.orelse, [st])
             a, b = st.fork(), st.fork()
             a.events.append(Event("test", s, t, True))
             b.events.append(Event("test", s, t, False))
